@@ -118,6 +118,7 @@ type Exec struct {
 	pcKind      []byte
 	randStreams [][]*Term
 	absMemo     map[int]*Term
+	traceClass  string
 }
 
 type Observation struct {
@@ -634,10 +635,11 @@ func (e *Exec) runBlock(fr *Frame, b *ssa.BasicBlock, prev *ssa.BasicBlock) (nex
 			}
 		case *ssa.If:
 			c := e.get(fr, x.Cond).(*Term)
-			e.traceBranch(fr, b, c)
 			if e.branch(c, fr.fn.Name()) {
+				e.traceBranch(fr, b, c, 1)
 				return b.Succs[0], nil, false
 			}
+			e.traceBranch(fr, b, c, 0)
 			return b.Succs[1], nil, false
 		case *ssa.Jump:
 			return b.Succs[0], nil, false
@@ -1124,9 +1126,9 @@ func (e *Exec) invoke(recv Value, m *types.Func, args []Value, c *ssa.CallCommon
 
 // ---------- misc ----------
 
-func (e *Exec) traceBranch(fr *Frame, b *ssa.BasicBlock, c *Term) {
+func (e *Exec) traceBranch(fr *Frame, b *ssa.BasicBlock, c *Term, side int) {
 	if e.opaque["tracing"] == true && !c.IsConst() {
-		e.traceEv = append(e.traceEv, fmt.Sprintf("br:%s#%d", fr.fn.Name(), b.Index))
+		e.traceEv = append(e.traceEv, fmt.Sprintf("%s#%d:%d", fr.fn.Name(), b.Index, side))
 	}
 }
 
